@@ -902,7 +902,17 @@ class Job:
                     )
                 else:
                     raise error
+            # Shallow copies share the state point of this job. They describe
+            # the same job and follow it into the new project.
+            copies = [job for job in self._statepoint._jobs if job is not self]
             self.__dict__.update(dst.__dict__)
+            if copies:
+                shared_statepoint = self.statepoint
+                for job in copies:
+                    lock, cwd = job._lock, job._cwd
+                    job.__dict__.update(self.__dict__)
+                    job._lock, job._cwd = lock, cwd
+                    shared_statepoint._jobs.append(job)
 
             # Update the destination project's state point cache
             project._register(self.id, statepoint)
